@@ -284,10 +284,16 @@ func c02TxWellFormed(tx *types.Transaction) string {
 		if err != nil {
 			return "box-data"
 		}
+		seenSub := map[common.Hash]bool{}
 		for _, sub := range box.SubTxList {
 			if sub == nil {
 				return "box-nil-sub"
 			}
+			// since /repo 786852c a box must not carry the same sub transaction twice (checkBoxTx)
+			if seenSub[sub.Hash()] {
+				return "box-repeats-sub"
+			}
+			seenSub[sub.Hash()] = true
 			if sub.Type() == params.BoxTx {
 				return "box-in-box"
 			}
